@@ -3,6 +3,8 @@ pub mod sx;
 pub mod gen_rope;
 pub mod h_slots;
 pub mod h_rope;
+pub mod dbg;
+pub mod h_ordered;
 
 /// run `f`, mapping a panic to `None`
 pub fn guarded<R>(f: impl FnOnce() -> R) -> Option<R> {
